@@ -250,7 +250,7 @@ func drawTarget(t *rapid.T, root val.V, store map[string]val.V) (segs []string, 
 }
 
 var c16Focused = evid.Part[C16Case]{
-	Prop: "C16", Name: "focused", Quick: 3000, Thorough: 300000,
+	Prop: "C16", Name: "focused", Quick: 3000, Thorough: 1200000,
 	Rule: "block graph × sequence of 1-4 FocusedTransforms (each applied to the previous result): target = existing position (map value, list element, below links, root), new map key, list append, missing parents with/without createParents, out-of-bounds / non-numeric index, past a scalar; edit = replace by a drawn value, identity, remove; separate read and write stores; non-trivial = target depth ≥2, below a link, a later step of a sequence, a removal or an insertion; distinct by (graph, steps)",
 	Gen: func(t *rapid.T) C16Case {
 		o := graph.DefaultOpts()
@@ -431,7 +431,7 @@ func c16WalkCheck(c C16WalkCase, rec *evid.Rec) error {
 }
 
 var c16Walk = evid.Part[C16WalkCase]{
-	Prop: "C16", Name: "walking", Quick: 2500, Thorough: 250000,
+	Prop: "C16", Name: "walking", Quick: 2500, Thorough: 1000000,
 	Rule: "(graph, selector) from the C07 generators (subset bounds removed: the transform contract does not define slicing) with WalkTransforming and a deterministic function of the matched value; compared with the reference top-down replacement; non-trivial = at least one target and (a link crossed or ≥2 targets); distinct by (graph, selector)",
 	Gen: func(t *rapid.T) C16WalkCase {
 		c := genGraphSel(t, rapid.IntRange(1, 4).Draw(t, "seldepth"))
